@@ -16,13 +16,15 @@
 EXTENDS Volute, Json, IOUtils
 
 MODE == IOEnv.MODE
+TIER == IOEnv.TIER
 Rec == ndJsonDeserialize(IOEnv.TRACE)
 DUAL == IOEnv.DUAL = "1"
 Rec2 == ndJsonDeserialize(IOEnv.TRACE2)
 NSLOT == 8
 
-VARIABLES l, slots, it, poisoned, nchk, nviol, nskip
-vars == <<l, slots, it, poisoned, nchk, nviol, nskip>>
+VARIABLES l, slots, it, poisoned, nchk, nviol, nskip,
+          pcache      \* [n, maps]: index maps of all input permutations of the size last canonized
+vars == <<l, slots, it, poisoned, nchk, nviol, nskip, pcache>>
 
 -----------------------------------------------------------------------------
 (* What is strict in which mode *)
@@ -35,11 +37,12 @@ ValueStrictOps ==
     [] MODE = "C07" -> {"bdd"}
     [] MODE = "C08" -> {"rel", "iter_start", "iter_next", "vnext"}
     [] MODE = "C09" -> {"text", "from_hex"}
+    [] MODE = "C10" -> {"conv_rt", "conv_try", "conv_int"}
     [] MODE = "C11" -> CtorOps
     [] OTHER -> {}
 AllOps == CtorOps \cup {"copy", "from_hex", "logic", "flip", "swap", "swapadj", "cofactors", "fromcof",
                         "setbit", "value", "rel", "info", "decomp", "unate", "text", "bdd",
-                        "iter_start", "iter_next", "vnext", "load"}
+                        "iter_start", "iter_next", "vnext", "load", "reload", "conv_rt", "conv_try"}
 OutcomeStrictOps == IF MODE = "C17" THEN AllOps ELSE ValueStrictOps
 WFStrict == MODE = "C02"
 
@@ -63,10 +66,10 @@ ObsR(e) == IF "r" \in DOMAIN e THEN e.r ELSE NoObs
 
 -----------------------------------------------------------------------------
 (* Verdicts.  v.k \in {"ok", "viol", "poison"} *)
-Good(S, i) == [k |-> "ok", why |-> "", slots |-> S, it |-> i, chk |-> 1]
-Setup(S, i) == [k |-> "ok", why |-> "", slots |-> S, it |-> i, chk |-> 0]
-Bad(w) == [k |-> "viol", why |-> w, slots |-> slots, it |-> it, chk |-> 1]
-Poison == [k |-> "poison", why |-> "", slots |-> slots, it |-> it, chk |-> 0]
+Good(S, i) == [k |-> "ok", why |-> "", slots |-> S, it |-> i, chk |-> 1, pc |-> pcache]
+Setup(S, i) == [k |-> "ok", why |-> "", slots |-> S, it |-> i, chk |-> 0, pc |-> pcache]
+Bad(w) == [k |-> "viol", why |-> w, slots |-> slots, it |-> it, chk |-> 1, pc |-> pcache]
+Poison == [k |-> "poison", why |-> "", slots |-> slots, it |-> it, chk |-> 0, pc |-> pcache]
 
 \* logged result of a successful call, adopted as the new state (setup steps)
 Adopt(e, i) == IF e.out # "ok" THEN Poison
@@ -105,8 +108,70 @@ GenericVerdict(e) ==
           THEN Bad("wrong observable")
           ELSE Good(Sx, x.it)
 
+-----------------------------------------------------------------------------
+(* Integer conversions (C10): bit m of the integer is f(m), both ways *)
+ConvIntVerdict(e) ==
+  IF MODE # "C10" THEN Setup(slots, it)
+  ELSE IF e.out # "ok" THEN Bad("outcome " \o e.out \o " not allowed")
+  ELSE LET nn == CASE e.w = 8 -> 3 [] e.w = 16 -> 4 [] e.w = 32 -> 5 [] e.w = 64 -> 6
+           bits == ToSet(e.vb)
+       IN IF ~(e.r.t.n = nn /\ WFTab(e.r.t) /\ Meaning(e.r.t) = bits) THEN Bad("integer to table")
+          ELSE IF ToSet(e.r.back) # bits THEN Bad("table to integer")
+          ELSE Good(slots, it)
+
+-----------------------------------------------------------------------------
+(* Canonization (C04: the representative; C05: the certificate) *)
+Feasible(kind, n) ==
+  CASE kind = "n" -> n <= 9
+    [] kind = "p" -> n <= (IF TIER = "thorough" THEN 8 ELSE 7)
+    [] kind = "npn" -> n <= (IF TIER = "thorough" THEN 7 ELSE 6)
+PostOf(e, s) == Posts(e)[CHOOSE k \in 1..Len(Posts(e)) : Posts(e)[k].s = s]
+\* Every recorded walk is, for its own group, a closed cycle through every group element; a
+\* walk of another group is acceptable when it covers the group of the call (for n <= 1 there
+\* is no permutation, so an N walk covers NPN and P is trivial)
+WalkValid(w) ==
+  /\ w.kind \in {"p", "npn"} => IsHamiltonianSwapCycle(w.swaps, w.n)
+  /\ w.kind \in {"n", "npn"} => IsGrayCycle(w.flips, w.n)
+WalkCovers(w, kind, n) ==
+  /\ w.n = n
+  /\ \/ w.kind = kind
+     \/ w.kind = "npn"
+     \/ n <= 1 /\ (kind = "p" \/ w.kind = "n")
+WalksOK(e, kind, n) == \A k \in 1..Len(e.walk) : WalkValid(e.walk[k]) /\ WalkCovers(e.walk[k], kind, n)
+CanonVerdict(e) ==
+  IF MODE \notin {"C04", "C05"} THEN Adopt(e, it)
+  ELSE IF e.out # "ok" THEN (IF MODE = "C04" THEN Bad("canonization did not return") ELSE Poison)
+  ELSE IF ~AllPostWF(e) THEN Poison
+  ELSE
+  LET A == slots[e.a]
+      res == Observed(PostOf(e, e.d))
+      Sx == (e.d :> res) @@ slots
+  IN
+  IF MODE = "C05" THEN
+     (IF CertOK(e.kind, A.n, A.on, res.on, e.r.perm, ToSet(e.r.mask)) /\ res.n = A.n
+      THEN Good(Sx, it) ELSE Bad("invalid certificate"))
+  ELSE IF res.n # A.n THEN Bad("wrong size")
+  ELSE IF ~WalksOK(e, e.kind, A.n) THEN Bad("walk is not a Hamiltonian cycle")
+  ELSE IF Feasible(e.kind, A.n) THEN
+     (\* exact: the orbit minimum by enumeration of the group (the index maps of the input
+      \* permutations are cached per size in `pcache`)
+      LET pc == IF e.kind # "n" /\ pcache.n # A.n THEN [n |-> A.n, maps |-> PermMaps(A.n)] ELSE pcache
+          m == OrbitMinEnum(e.kind, A.n, A.on, pc.maps)
+      IN IF res.on = m THEN [Good(Sx, it) EXCEPT !.pc = pc]
+         ELSE IF PrintT(<<"QUERY", l, m>>) THEN [Bad("not the orbit minimum") EXCEPT !.pc = pc] ELSE Bad("?"))
+  ELSE
+     (\* beyond enumeration: the walk must have been observed and be a verified cycle; the
+      \* result must lie in the orbit (certificate) - minimality then follows from the walk
+      \* theorem (mc/MC_Canon) for the loop code checked exactly at the smaller sizes
+      IF e.walk = <<>> THEN Assert(FALSE, <<"no walk recorded", l>>)
+      ELSE IF Less(A.on, res.on) THEN Bad("result larger than the input")
+      ELSE Good(Sx, it))
+
 Verdict(e) ==
   IF e.out = "skip" THEN Poison
+  ELSE IF e.op = "canon" THEN CanonVerdict(e)
+  ELSE IF e.op = "conv_int" THEN ConvIntVerdict(e)
+  ELSE IF e.op = "random" THEN Adopt(e, it)
   ELSE GenericVerdict(e)
 
 \* Dual traces: the same script run a second time (other build profile / other table type)
@@ -121,6 +186,7 @@ Init == /\ l = 1
         /\ it = NoIter
         /\ poisoned = FALSE
         /\ nchk = 0 /\ nviol = 0 /\ nskip = 0
+        /\ pcache = [n |-> 0, maps |-> PermMaps(0)]
 
 StepOf(e) ==
      IF e.op = "reset" THEN
@@ -128,16 +194,18 @@ StepOf(e) ==
         /\ it' = NoIter
         /\ poisoned' = FALSE
         /\ UNCHANGED <<nchk, nviol, nskip>>
-     ELSE IF poisoned THEN UNCHANGED <<slots, it, poisoned, nchk, nviol, nskip>>
+        /\ UNCHANGED pcache
+     ELSE IF poisoned THEN UNCHANGED <<slots, it, poisoned, nchk, nviol, nskip, pcache>>
      ELSE \E v0 \in {Verdict(e)} :
           \E v \in {IF v0.k = "ok" /\ ~DualOK(e) THEN Bad("second trace differs") ELSE v0} :
              /\ slots' = v.slots
              /\ it' = v.it
              /\ poisoned' = (v.k # "ok")
-             /\ nchk' = nchk + v.chk
+             /\ nchk' = nchk + (IF DUAL /\ v.k = "ok" THEN 1 ELSE v.chk)
              /\ nviol' = IF v.k = "viol" THEN nviol + 1 ELSE nviol
              /\ nskip' = IF v.k = "poison" THEN nskip + 1 ELSE nskip
              /\ IF v.k = "viol" THEN PrintT(<<"VIOL", l, e.op, v.why>>) ELSE TRUE
+             /\ pcache' = v.pc
 
 Step ==
   /\ l <= Len(Rec)
@@ -147,7 +215,7 @@ Step ==
 Finish == /\ l = Len(Rec) + 1
           /\ l' = l + 1
           /\ PrintT(<<"DONE", Len(Rec), nchk, nviol, nskip>>)
-          /\ UNCHANGED <<slots, it, poisoned, nchk, nviol, nskip>>
+          /\ UNCHANGED <<slots, it, poisoned, nchk, nviol, nskip, pcache>>
 
 Spec == Init /\ [][Step \/ Finish]_vars
 
